@@ -23,7 +23,7 @@ def main():
         i = args.index("--checks"); checks = args[i + 1].split(","); del args[i:i + 2]
     if "--tier" in args:
         i = args.index("--tier"); tier = args[i + 1]; del args[i:i + 2]
-    out, sid = args[0], args[1]
+    out, sid = os.path.abspath(args[0]), args[1]
     meta = json.load(open(os.path.join(out, "meta.json")))
     pid = meta["property"]
     checks = checks or [pid]
